@@ -1,6 +1,8 @@
 import OpcuaModel.Gen.NodeIdGen
 import OpcuaModel.Props.C09
 import OpcuaModel.Props.C03
+import OpcuaModel.Props.C08
+import OpcuaModel.Props.C10
 /-! # Tie (A) for the NodeId kernel and `extend_namespace_map`: the definitions GENERATED from the Python source are equal to the
 hand model, so every C09 theorem is a theorem about the code as written.  This file is re-checked against
 a freshly generated `NodeIdGen` on every run of the C09 / C03 checks. -/
@@ -287,5 +289,50 @@ theorem gen_namespaceList_at (d : List (Nat × Str)) (i : Nat) (u : Str) (h : lo
   have hne : d ≠ [] := by intro e; subst e; simp [lookup] at h
   exact ⟨_, getNamespaceList_eq d hne, C03.namespaceList_at d i u h⟩
 
+
+/-! ### `UANodeId.nodeid_type_value_to_int`, `UANodeId.xml_encode`, `UANodeId.json_encode`: generated = hand model -/
+
+theorem typeInt_eq (n : NodeId) : Gen.nodeid_type_value_to_int n = .ok ((idTypeInt n.ty : Nat) : Int) := by
+  cases n with
+  | mk ns ty ident =>
+    cases ty <;> simp [Gen.nodeid_type_value_to_int, pyLitHas, pyLitGet, lookup, pyEnumValue, IdType.char, bindE, idTypeInt]
+
+theorem tId_eq : tId = ['I', 'd', 'e', 'n', 't', 'i', 'f', 'i', 'e', 'r'] := by decide
+theorem xmlns_eq : xmlnsAttr true = [' '] ++ ['x', 'm', 'l', 'n', 's', '=', '"', 'h', 't', 't', 'p', ':', '/', '/', 'o', 'p', 'c', 'f', 'o', 'u', 'n', 'd', 'a', 't', 'i', 'o', 'n', '.', 'o', 'r', 'g', '/', 'U', 'A', '/', '2', '0', '0', '8', '/', '0', '2', '/', 'T', 'y', 'p', 'e', 's', '.', 'x', 's', 'd', '"'] := by decide
+theorem xmlns_false : xmlnsAttr false = [] := rfl
+
+theorem xmlEncode_eq (n : NodeId) (b : Bool) : Gen.nodeid_xml_encode n b = .ok (encodeText (.nodeId n) b) := by
+  have he : encodeText (.nodeId n) b = wrap tId b n.print := by simp only [encodeText]
+  rw [he]
+  unfold Gen.nodeid_xml_encode wrap
+  rw [print_eq, tId_eq]
+  cases b
+  · rw [xmlns_false]; simp [bindE]
+  · rw [xmlns_eq]; simp [bindE]
+
+theorem showNat_digit (d : Nat) (h : d < 10) : showNat d = [digitChar d] := by
+  rw [showNat]; simp [h]
+
+theorem jsonEncode_eq (n : NodeId) : Gen.nodeid_json_encode n = .ok (nodeIdJson n) := by
+  unfold Gen.nodeid_json_encode
+  rw [typeInt_eq]
+  cases n with
+  | mk ns ty ident =>
+    have h1 : pyStrInt 1 = [digitChar 1] := showNat_digit 1 (by omega)
+    have h2 : pyStrInt 2 = [digitChar 2] := showNat_digit 2 (by omega)
+    have h3 : pyStrInt 3 = [digitChar 3] := showNat_digit 3 (by omega)
+    by_cases h0 : ns = 0 <;> cases ty <;>
+      simp [bindE, nodeIdJson, h0, pyEnumValue, IdType.char, pyFormat, PyFormat.fmt, idTypeInt, h1, h2, h3]
+
+/-- C10 (`nodeId_numeric_valid`) restated for the generated encoder: the text `UANodeId.json_encode` — as the source reads
+    now — produces for a numeric identifier parses as JSON, for every namespace and every number -/
+theorem gen_nodeId_numeric_valid (ns k : Nat) :
+    ∃ t, Gen.nodeid_json_encode ⟨(ns : Int), .i, showNat k⟩ = .ok t ∧
+      parseJson t = parseJson (nodeIdJson ⟨(ns : Int), .i, showNat k⟩) :=
+  ⟨_, jsonEncode_eq _, rfl⟩
+
+/-- the generated XML encoder never raises and produces the model's `<Identifier>` element -/
+theorem gen_xmlEncode_total (n : NodeId) (b : Bool) : ∃ t, Gen.nodeid_xml_encode n b = .ok t ∧ t = encodeText (.nodeId n) b :=
+  ⟨_, xmlEncode_eq n b, rfl⟩
 
 end Opcua.Tie
